@@ -203,7 +203,7 @@ func c07Values(c *core.Ctx) {
 			}
 		}
 		// random mixed tuples
-		n := c.N(4000, 400000)
+		n := c.N(4000, 4000000)
 		for k := int64(0); k < n/100; k++ {
 			idx++
 			if !c.Mine(mon, idx) {
@@ -286,7 +286,7 @@ func c07Streams(c *core.Ctx) {
 		c.Exhaustive("registered sizes: 2 x 256 (direction, CID)")
 	}
 
-	n := c.N(20000, 600000)
+	n := c.N(20000, 10000000)
 	for i := int64(0); i < n; i++ {
 		if !c.Mine("streams", i) {
 			continue
@@ -463,7 +463,7 @@ func predictFraming(m regModel, up bool, b []byte) ([][]byte, bool) {
 }
 
 func c07Histories(c *core.Ctx) {
-	n := c.N(2500, 100000)
+	n := c.N(2500, 2000000)
 	for h := int64(0); h < n; h++ {
 		if !c.Mine("history", h) {
 			continue
